@@ -46,7 +46,11 @@ PROPS = {
    corr=[("pipes-exh-3", "compile", 0, 0), ("pipes", "compile", 3000, 30000)],
    thorough_corr=[("pipes-exh-4", "compile", 0, 0)],
    oracle=[("pipes", "oracle-C13", 1500, 15000)],
-   corpus=["compile.txt"], tables=["Gen/AstTables.v: can_attach_sort, split_cond_sort, split_cond_take, split_cond_top"]),
+   corpus=["compile.txt"], tables=["Gen/AstTables.v: can_attach_sort, split_cond_sort, split_cond_take, split_cond_top"],
+   trusted_extra=["standard-library axiom FunctionalExtensionality.functional_extensionality_dep: used only by C02_pipeline, to identify the SQL and PQL expression evaluators once C01_meaning has shown them pointwise equal (C02_pipeline_generic is axiom-free)",
+                  "specifications that define meaning: coq/Spec/Sem.v (values, SQL expression semantics), coq/Spec/PqlSem.v (PQL expression semantics), coq/Spec/PipeSem.v (operators, pipeline interpreter, SELECT = source; operator; ORDER BY; LIMIT; later subqueries see earlier ones by name, order preserved)"],
+   assumptions=["order-preserving reading of subqueries (a CTE keeps its row order when read by the next SELECT) is an assumption about the target dialect",
+                "the theorem is stated on the structured subqueries of the model; that the emitted text denotes them is tied by byte-exact correspondence of the rendering"]),
  "C05": dict(
    corr=[("prog", "compile", 3000, 30000), ("prog-mut", "compile", 3000, 30000), ("pipes", "compile", 1500, 15000), ("joins", "compile", 1500, 15000)],
    oracle=[("prog-mut", "oracle-C13", 1500, 15000)],
